@@ -179,6 +179,8 @@ class Engine:
             return
         if b is False:
             raise Infeasible()
+        if self.spec and b.get_id() in self.assumed:
+            return      # already a fact of this path (tested first: printing a large term below is slow)
         if self.spec and "!b" in str(b):
             return      # fact about a quantifier-bound variable: not a fact about the path
         key = b.get_id()
@@ -213,14 +215,16 @@ class Engine:
         self.stats["feas_checks"] += 1
         s = z3.Solver()
         s.set("rlimit", _RL_FEAS)
+        s.set("timeout", 20000)      # belt and braces: `unknown` counts as feasible (more paths, never fewer)
         for c in self.pc:
             s.add(c)
         s.add(extra)
         r = s.check()
         return r != z3.unsat
 
-    def branch(self, cond, label=""):
-        """decide a symbolic condition; returns a python bool and extends the path condition"""
+    def branch(self, cond, label="", free=False):
+        """decide a symbolic condition; returns a python bool and extends the path condition.
+        free=True: cond is a fresh unconstrained boolean (demonic choice): both sides are feasible by construction"""
         if isinstance(cond, bool):
             return cond
         cond = z3.simplify(cond)
@@ -234,8 +238,8 @@ class Engine:
             d = self.decisions[self.pos]
             self.pos += 1
         else:
-            ft = self.feasible(cond)
-            ff = self.feasible(z3.Not(cond))
+            ft = True if free else self.feasible(cond)
+            ff = True if free else self.feasible(z3.Not(cond))
             if ft and ff:
                 self.pending.append(self.decisions + [False])
                 d = True
@@ -255,7 +259,7 @@ class Engine:
         """n-way nondeterministic choice (externals that may return or raise ...)"""
         for i in range(n - 1):
             c = self.fresh("choice", z3.BoolSort())
-            if self.branch(c):
+            if self.branch(c, free=True):
                 return i
         return n - 1
 
@@ -596,6 +600,11 @@ class Engine:
             return a.t == b
         if isinstance(b, Sym) and b.k == "bool" and isinstance(a, bool):
             return b.t == a
+        # a symbolic int / float (kind int or real; bools have their own kind) is never the object True / False
+        if isinstance(a, Sym) and a.k in ("int", "real") and isinstance(b, bool):
+            return False
+        if isinstance(b, Sym) and b.k in ("int", "real") and isinstance(a, bool):
+            return False
         raise Unsupported("identity of %r and %r" % (a, b))
 
     def equal(self, a, b):
@@ -691,6 +700,9 @@ class Engine:
             return a + b
         if isinstance(op, ast.Add) and isinstance(a, ListV) and isinstance(b, ListV):
             return self.list_concat(a, b)
+        if isinstance(op, ast.Mult) and (isinstance(a, ListV) or isinstance(b, ListV)):
+            from . import builtins_ as _B          # `[x] * n` with a symbolic count (C40)
+            return _B.list_repeat(self, a, b)
         if isinstance(op, ast.Mod) and ka == "str":
             return Opaque_("str%")
         if isinstance(op, ast.Mult) and ((ka == "str" and kb == "int") or (ka == "int" and kb == "str")):
@@ -964,6 +976,20 @@ class Engine:
             return x in cont
         if kind_of(cont) == "str" and kind_of(x) == "str":
             return z3.Contains(zstr(cont), zstr(x))
+        if isinstance(cont, Sym) and isinstance(cont.k, tuple) and cont.k[0] == "opaque":
+            # `x in v` where v is a value the contracts declare opaque (interface: equality / hashing only): what
+            # Python does depends on the run-time type (tuple: element membership, str: substring, int: TypeError).
+            # The code relies on more than the declared interface: reported as a failing safety obligation; the
+            # path continues with an uninterpreted result so that the remaining obligations are still generated.
+            if not self.spec:
+                self.oblige("safe", z3.BoolVal(False), "`in` is applied to a value whose declared interface is "
+                            "equality only (membership semantics depend on its run-time type)", assume_after=False)
+            f = z3.Function("opaque_member_%s" % cont.k[1], cont.t.sort(), z3.IntSort(), z3.BoolSort())
+            xt = x.t if hasattr(x, "t") and x.t.sort() == z3.IntSort() else z3.IntVal(abs(hash(str(x))) % (1 << 30))
+            if hasattr(x, "t") and x.t.sort() == cont.t.sort():
+                f = z3.Function("opaque_member2_%s" % cont.k[1], cont.t.sort(), cont.t.sort(), z3.BoolSort())
+                xt = x.t
+            return f(cont.t, xt)
         raise Unsupported("membership in %r (line %d)" % (cont, self.cur_line))
 
     def list_concat(self, a, b):
